@@ -37,6 +37,13 @@ def check(repo, col, tier):
     col.rule("R-C14-keys", "init_state reads and returns the declared keys of its own instance", 10)
     for cinfo in kin.mech_classes(repo, "Channel"):
         _c04._check_keys(repo, col, cinfo, "channel", "R-C14-keys", ("init_state",))
+    # init_state and update_states evaluate every gate function with the SAME voltage and parameters (no clamp, shift or dropped
+    # argument on one side only): otherwise the state that is written is the fixed point of other kinetics than the update's
+    col.rule("R-C14-siblings", "init_state and update_states hand the same arguments to every gate function", 6)
+    spec_ = kin.load_spec()
+    for cinfo in kin.mech_classes(repo, "Channel"):
+        if cinfo.name in spec_:
+            _c04._sibling_gate_calls(repo, col, cinfo.name, spec_[cinfo.name], cinfo, "R-C14-siblings")
     for cinfo in kin.mech_classes(repo, "Channel"):
         name = cinfo.name
         fi_init = repo.method(name, "init_state")
